@@ -635,6 +635,22 @@ def clause_getmask(repo, chk):
                 chk.violation("E-getmask", fn.key, "mask:%s:%s" % (bounded, vif), "get('a', val_in_fit=%s) returns %s while a mask is in force (stored value theta_a%s): code that saves parameters with get and writes them back stores the mask permanently" % (vif, out, ", range registered" if bounded else ""), file=VAR, line=fn.lineno)
 
 
+def clause_apply_order(repo, chk):
+    """the configuration applies fix / free before the ties: set_fix on a parameter that is already a follower of a tie
+    group only warns ("fixed already") and leaves the head - i.e. the shared storage - trainable"""
+    LOADER = "tf_pwa/config_loader/config_loader.py"
+    fn = repo.fn(LOADER + "::ConfigLoader.add_constraints")
+    chk.rule("O-apply", "ConfigLoader.add_constraints applies fix_var and free_var before var_equal (the order the property quantifies over: create, fix/free, tie, bound): VarsManager.set_same carries an existing fix over to the whole group, whereas set_fix on a follower of an existing tie only warns and the group stays free")
+    order = [norm_text(c.func).split(".")[-1] for st in fn.node.body for c in ast.walk(st) if isinstance(c, ast.Call) and isinstance(c.func, ast.Attribute) and c.func.attr.startswith("add_") and c.func.attr.endswith("_constraints")]
+    need = ("add_fix_var_constraints", "add_free_var_constraints", "add_var_equal_constraints")
+    if any(n_ not in order for n_ in need):
+        raise AnalysisError("ConfigLoader.add_constraints no longer calls %s in its own body: the order of fix / free / tie cannot be read off" % [n_ for n_ in need if n_ not in order])
+    ok = order.index("add_var_equal_constraints") > max(order.index("add_fix_var_constraints"), order.index("add_free_var_constraints"))
+    chk.oblige("O-apply", "add_constraints applies %s" % " -> ".join(x[4:-12] for x in order), ok)
+    if not ok:
+        chk.violation("O-apply", fn.key, "tie-before-fix", "add_constraints applies %s: var_equal runs before fix_var / free_var, so fixing a parameter that is not the first name of its var_equal list only warns `fixed already` and the tied group stays trainable - a `fixed` parameter is re-drawn by reinit_params and floated by the fit" % " -> ".join(x[4:-12] for x in order), file=LOADER, line=fn.lineno)
+
+
 def run(repo, chk, tier):
     from ..cacheown import check_persistent_state
 
@@ -649,6 +665,7 @@ def run(repo, chk, tier):
     clause_g(repo, chk)
     clause_setbound(repo, chk)
     clause_pairs(repo, chk)
+    clause_apply_order(repo, chk)
     clause_getmask(repo, chk)
     clause_h(repo, chk)
     # tied parameters stay equal through the post-fit standardisation; bounded parameters get the bound transform's own
